@@ -316,31 +316,45 @@ where
             .delivery_tag
             .clone()
             .ok_or(LinkStateError::IllegalState)?;
-        let settled = self
+        // Same rule as in `send_transfer_without_modifying_unsettled_map`
+        let settled = transfer
+            .settled
+            .unwrap_or(matches!(self.snd_settle_mode, SenderSettleMode::Settled));
+        if settled {
+            self.send_transfer_without_modifying_unsettled_map(writer, transfer, payload)
+                .await?;
+            return Ok(Settlement::Settled(delivery_tag));
+        }
+
+        // If not set on the first (or only) transfer for a (multi-transfer)
+        // delivery, then the settled flag MUST be interpreted as being false.
+        //
+        // The delivery is recorded as unsettled BEFORE the transfer is handed to the session:
+        // on a multi-thread runtime the receiver's disposition can be processed before this
+        // task runs again, and it must find the entry
+        let (tx, rx) = oneshot::channel();
+        let unsettled = UnsettledMessage::new(payload_copy, None, message_format, tx);
+        {
+            let mut guard = self.unsettled.write();
+            guard
+                .get_or_insert(OrderedMap::new())
+                .insert(delivery_tag.clone(), unsettled);
+        }
+        if let Err(error) = self
             .send_transfer_without_modifying_unsettled_map(writer, transfer, payload)
-            .await?;
+            .await
+        {
+            let mut guard = self.unsettled.write();
+            let _ = guard.as_mut().and_then(|m| m.swap_remove(&delivery_tag));
+            return Err(error);
+        }
         #[cfg(fe2o3_amqp_verif)]
         crate::verif::preempt("sender-unsettled-insert").await;
-        match settled {
-            true => Ok(Settlement::Settled(delivery_tag)),
-            // If not set on the first (or only) transfer for a (multi-transfer)
-            // delivery, then the settled flag MUST be interpreted as being false.
-            false => {
-                let (tx, rx) = oneshot::channel();
-                let unsettled = UnsettledMessage::new(payload_copy, None, message_format, tx);
-                {
-                    let mut guard = self.unsettled.write();
-                    guard
-                        .get_or_insert(OrderedMap::new())
-                        .insert(delivery_tag.clone(), unsettled);
-                }
 
-                Ok(Settlement::Unsettled {
-                    delivery_tag,
-                    outcome: rx,
-                })
-            }
-        }
+        Ok(Settlement::Unsettled {
+            delivery_tag,
+            outcome: rx,
+        })
     }
 
     async fn dispose(
